@@ -763,6 +763,22 @@ def _is_some_and(m, q, args, callee):
     return mk_bool(False)
 
 
+@_m(PATH_MODELS, ('bool', 'then_some'))
+def _then_some(m, q, args, callee):
+    c = args[0].t if not z3.is_bv(args[0].t) else args[0].t != 0
+    if m.branch(c):
+        return some(args[1])
+    return none()
+
+
+@_m(PATH_MODELS, ('bool', 'then'))
+def _then(m, q, args, callee):
+    c = args[0].t if not z3.is_bv(args[0].t) else args[0].t != 0
+    if m.branch(c):
+        return some(m.call_value(args[1], []))
+    return none()
+
+
 @_m(PATH_MODELS, ('Option', 'cloned'), ('Option', 'copied'))
 def _opt_cloned(m, q, args, callee):
     o = args[0]
@@ -1347,6 +1363,81 @@ def _copysign(m, q, args, callee):
 @_m(PATH_MODELS, ('f32', 'recip'))
 def _recip(m, q, args, callee):
     return Sc('f32', z3.fpDiv(RNE, z3.FPVal(1.0, F32), args[0].t))
+
+
+def _is_dur(v):
+    return isinstance(v, Agg) and v.name == 'Duration'
+
+
+def _dur_cmp_wrap(op, prev):
+    def h(m, q, args, callee):
+        a = deref_all(m, args[0])
+        if _is_dur(a):
+            x, y = a.f[0].t, deref_all(m, args[1]).f[0].t
+            return Sc('bool', {'lt': z3.ULT(x, y), 'le': z3.ULE(x, y), 'gt': z3.UGT(x, y), 'ge': z3.UGE(x, y)}[op])
+        return prev(m, q, args, callee) if prev else NotImplemented
+    return h
+
+
+for _op in ('lt', 'le', 'gt', 'ge'):
+    TRAIT_MODELS[('PartialOrd', _op)] = _dur_cmp_wrap(_op, TRAIT_MODELS.get(('PartialOrd', _op)))
+
+
+def _dur_ord_wrap(prev, partial):
+    def h(m, q, args, callee):
+        a = deref_all(m, args[0])
+        if _is_dur(a):
+            x, y = a.f[0].t, deref_all(m, args[1]).f[0].t
+            o = ORD(z3.If(z3.ULT(x, y), z3.BitVecVal(-1, 8), z3.If(x == y, z3.BitVecVal(0, 8), z3.BitVecVal(1, 8))))
+            return some(o) if partial else o
+        return prev(m, q, args, callee) if prev else NotImplemented
+    return h
+
+
+TRAIT_MODELS[('Ord', 'cmp')] = _dur_ord_wrap(TRAIT_MODELS.get(('Ord', 'cmp')), False)
+TRAIT_MODELS[('PartialOrd', 'partial_cmp')] = _dur_ord_wrap(TRAIT_MODELS.get(('PartialOrd', 'partial_cmp')), True)
+
+
+def _dur_minmax_wrap(prev):
+    def h(m, q, args, callee):
+        a = deref_all(m, args[0])
+        if _is_dur(a):
+            x, y = a.f[0].t, deref_all(m, args[1]).f[0].t
+            if callee.endswith('max'): return mk_duration(z3.If(z3.UGE(y, x), y, x))
+            return mk_duration(z3.If(z3.ULE(x, y), x, y))
+        return prev(m, q, args, callee) if prev else NotImplemented
+    return h
+
+
+for _k in (('Ord', 'max'), ('Ord', 'min')):
+    TRAIT_MODELS[_k] = _dur_minmax_wrap(TRAIT_MODELS.get(_k))
+
+
+@_m(PATH_MODELS, ('Duration', 'from_secs'), ('Duration', 'from_millis'), ('Duration', 'from_micros'), ('Duration', 'from_nanos'), ('Duration', 'new'))
+def _dur_from_int(m, q, args, callee):
+    name = callee.rsplit('::', 1)[1]
+    x = z3.ZeroExt(128 - args[0].t.size(), args[0].t)
+    if name == 'new':
+        n = x * z3.BitVecVal(10 ** 9, 128) + z3.ZeroExt(128 - args[1].t.size(), args[1].t)
+        if m.branch(z3.UGT(n, z3.BitVecVal(DUR_MAX, 128))): raise Panic('overflow in Duration::new')
+        return mk_duration(n)
+    return mk_duration(x * z3.BitVecVal({'from_secs': 10 ** 9, 'from_millis': 10 ** 6, 'from_micros': 10 ** 3, 'from_nanos': 1}[name], 128))
+
+
+@_m(PATH_MODELS, ('Duration', 'as_nanos'), ('Duration', 'as_micros'), ('Duration', 'as_millis'), ('Duration', 'as_secs'), ('Duration', 'subsec_nanos'))
+def _dur_as_int(m, q, args, callee):
+    name = callee.rsplit('::', 1)[1]
+    n = dur_nanos(m, args[0])
+    if name == 'subsec_nanos':
+        return Sc('u32', z3.Extract(31, 0, z3.URem(n, z3.BitVecVal(10 ** 9, 128))))
+    d = z3.UDiv(n, z3.BitVecVal({'as_nanos': 1, 'as_micros': 10 ** 3, 'as_millis': 10 ** 6, 'as_secs': 10 ** 9}[name], 128))
+    return Sc('u64', z3.Extract(63, 0, d)) if name == 'as_secs' else Sc('u128', d)
+
+
+@_m(PATH_MODELS, ('Duration', 'checked_sub'))
+def _dur_checked_sub(m, q, args, callee):
+    a, b = dur_nanos(m, args[0]), dur_nanos(m, args[1])
+    return En('Option', z3.If(z3.ULT(a, b), z3.BitVecVal(0, 64), z3.BitVecVal(1, 64)), {0: [], 1: [mk_duration(a - b)]})
 
 
 @_m(PATH_MODELS, ('Duration', 'is_zero'))
